@@ -393,6 +393,8 @@ def _touches_classes(r):
             return True
         if r and r[0] == "op" and r[1] in ("|", "-", "~"):
             return True
+        if r and r[0] == "new" and r[1] in META_UB or (r and r[0] == "new" and r[1] in ("Date", "IPv4")):
+            return True                      # meta patterns are built from classes internally
         return any(_touches_classes(x) for x in r)
     if isinstance(r, dict):
         return any(_touches_classes(v) for v in r.values())
